@@ -189,4 +189,19 @@ PROPS.update({
     },
 })
 
+PROPS.update({
+    "C18": {
+        "title": "Schedule and feature independence",
+        "rule": GEN + "Each case fixes a 32-byte seed from which ALL randomness of one complete execution derives (setup, trim, polynomials, commitment blinding, query set, prover and verifier RNG). The execution is repeated inside this process under rayon pools of 1, 2, 3, 8, 16 threads, 3 (quick) / 8 (thorough) more times at 16 threads and, in the thorough tier, under a 64-thread oversubscribed pool while 8 spinning threads load the machine; the driver additionally runs the same cases with the harness built WITHOUT the library's `parallel` feature. Compared: SHA-256 of the canonical serialization of universal parameters, committer / verifier key, every commitment and commitment state, batch proof, single proof, and the decisions of batch_check (true and false claim) and check. Oracle: all digests of all executions equal; cross-build digests equal key by key. A case is one seed; non-trivial = at least 8 executions compared." + DIST,
+        "required_classes": ["same-digests-across-thread-counts"],
+        "technique": "runtime monitoring: differential determinism monitor across rayon pool sizes, repetitions, load, and the non-parallel build",
+        "level_text": "Schedule independence is decided by observing many executions of identical seeded workloads under different worker counts and builds and comparing digests of everything the library returns; this is what a race detector cannot say for a data-race-free (forbid(unsafe)) crate whose possible nondeterminism lies in reduction order or hidden thread-local RNGs.",
+        "design_ref": "5 (C18)",
+        "assumptions": TRUST + ["rayon work-stealing under 1..64 workers with and without CPU contention samples the schedules; no schedule enumeration is possible at this level"],
+        "nopar": True,
+        "rayon_threads": 0,
+        "max_shards": 4,
+    },
+})
+
 ALL_IDS = ["C%02d" % i for i in range(1, 20)]
